@@ -217,12 +217,13 @@ class BaseTemplate:
             setattr(self, "_" + name, function)
 
         # Retire the entry points of a previous version of the template
-        # (e.g. a macro that no longer exists after a reload).
+        # (e.g. a macro that no longer exists after a reload).  Other
+        # threads may be setting attributes: walk a snapshot.
         for attr in [
-            attr for attr in self.__dict__
+            attr for attr in list(self.__dict__)
             if attr.startswith("_render") and attr[1:] not in functions
         ]:
-            delattr(self, attr)
+            self.__dict__.pop(attr, None)
 
         self._cooked = True
 
